@@ -422,6 +422,23 @@ def run_objective(cell, su, fails, notes):
             fails.add("objective", f"mismatch err={msg}{hint}", f"{cell['objective']} num_data={N} beta={beta} subset={idx.tolist()}: got "
                       f"{float(got):.12g} want {float(want):.12g}")
             fails[-1]["features"] = {"num_data": N, "beta": beta}
+    # combine_terms=False returns the same terms separately: (log-likelihood, KL, log-prior[, added loss]) with the documented signs
+    mllu = cls(su.lik, su.model, num_data=N_DATA, beta=0.5, combine_terms=False)
+    with torch.no_grad():
+        parts = mllu(su.model(su.X[idx]), su.y[idx], **kw)
+    ops += 2
+    want = su.objective(m, Sq, idx, cell["objective"], N_DATA, 0.5, lp, added)
+    if len(parts) != (4 if cell["added"] else 3):
+        fails.add("objective-uncombined", f"combine_terms=False returned {len(parts)} terms, documented {4 if cell['added'] else 3}")
+    else:
+        tot = parts[0] - parts[1] + parts[2] - (parts[3] if len(parts) == 4 else 0.0)
+        ok, msg = util.close(tot, want, 1e-9, 1e-9)
+        if not ok:
+            fails.add("objective-uncombined", f"log_likelihood - kl + log_prior - added_loss of the separate terms: mismatch err={msg}")
+        if cell["added"] and abs(float(parts[3]) - ADDED) > 1e-12:
+            fails.add("objective-uncombined", f"added-loss term {float(parts[3])} != {ADDED}")
+        if cell["priors"] and abs(float(parts[2]) - float(lp) / N_DATA) > 1e-9:
+            fails.add("objective-uncombined", f"log-prior term {float(parts[2])} != sum of log priors / num_data = {float(lp) / N_DATA}")
     # the declared data size and beta are plain attributes of the objective (KL annealing, a data set that grows): ONE objective whose
     # attributes are re-assigned must give what an objective constructed with those values gives
     mll = cls(su.lik, su.model, num_data=N_DATA, beta=1.0)
